@@ -96,7 +96,7 @@ fn get_ra_interp_deltas(top_astro_day: &TopAstroDay) -> (f64, f64) {
         next_ra += TWO_PI_DEG;
     }
     if prev_ra > j && top_astro_day.astro().ra() < k {
-        prev_ra = 0.;
+        prev_ra -= TWO_PI_DEG;
     }
     let delta1 = next_ra - prev_ra;
     let delta2 = next_ra + prev_ra - 2. * top_astro_day.astro().ra();
